@@ -54,8 +54,14 @@ func (st *SplitTracker) TrackAssigned(shards []SourceSplitterShard) {
 		st.assignedSplits[shard.ShardID] = struct{}{}
 	}
 
-	if len(shards) > 0 {
-		st.LastAssignedSplitID = shards[len(shards)-1].ShardID
+	// Shard discovery lists the shards after LastAssignedSplitID, so it must
+	// never move backwards: a discovery that starts below a shard which was
+	// already read to its end and removed would find that shard again and it
+	// would be assigned a second time.
+	for _, shard := range shards {
+		if shard.ShardID > st.LastAssignedSplitID {
+			st.LastAssignedSplitID = shard.ShardID
+		}
 	}
 }
 
